@@ -422,7 +422,6 @@ struct FsWorld {
         s.returned = true; s.ok = r.generated_correctly; s.nerrors = (int)r.errors.size(); s.nrequests = (int)r.file_requests.size();
         s.code_size = (long long)r.code.code.size();
         for (auto &e : r.errors) {
-          if (e.message.find("too many macro substitutions") != std::string::npos) s.reached_max_passes = true;
           if (s.bad_error) continue;
           if (e.message.empty()) { s.bad_error = 1; snprintf(s.bad_detail, sizeof s.bad_detail, "error with an empty message at %.60s:%d", e.file.c_str(), e.line); continue; }
           if (e.file == "-") continue;
@@ -475,7 +474,7 @@ struct FsWorld {
     judge_totality(s, mon, leaked, leak_bytes, "compile");
     if (s.returned) {
       ctx.stats.inc(s.ok ? "compile_ok" : "compile_rejected");
-      if (s.reached_max_passes) ctx.stats.inc("probe_budget_exhausted");
+      if (mon.cnt[Theo::verif::MACRO_PASS] >= 1024) ctx.stats.inc("probe_budget_exhausted");
       if (main_lost) ctx.stats.inc("probe_main_file_lost");
     }
     // literal clause of C20
@@ -652,9 +651,9 @@ struct FsWorld {
       if (mon2.exceeded && !mon2.slow_abandoned) ctx.check(false, "C15", "scan_terminates", std::string("compile: the ") + site_name(mon2.exceeded) + " exceeded its bound");
     }
     std::set<std::string> req;
-    std::vector<std::string> msgs;
+    std::vector<Loc> locs;
     auto compile_once = [&](const std::map<std::string, std::string> &st) {
-      req.clear(); msgs.clear();
+      req.clear(); locs.clear();
       WorkMonitor cm;
       long long bytes = 200;
       for (auto &kv : st) bytes += (long long)kv.second.size();
@@ -669,7 +668,7 @@ struct FsWorld {
         try {
           CodegenResult r = Theo::compile(st, main);
           for (auto &q : r.file_requests) req.insert(q);
-          for (auto &e : r.errors) msgs.push_back(e.message);
+          for (auto &e : r.errors) locs.push_back({e.file, e.line});
           ok = r.generated_correctly;
         } catch (SimAbort &) {
           set_phase(PH_HARNESS);
@@ -682,19 +681,20 @@ struct FsWorld {
       ctx.sim_steps += cm.total();
       return ok;
     };
-    compile_once(store);
+    bool compiled_ok = compile_once(store);
     if (req != m.requests) {
       std::string a, b;
       for (auto &q : req) a += "'" + q + "' ";
       for (auto &q : m.requests) b += "'" + q + "' ";
       ctx.check(false, "C15", "file_requests_exact", "file_requests {" + a + "} expected {" + b + "}");
     }
+    // every predicted include error shows up in compile()'s error list at the predicted position (the message text is
+    // the library's business and is not looked at)
+    if (!m.errors.empty() && compiled_ok) ctx.check(false, "C15", "compile_reports_include_errors", "include errors were predicted but compile() marked the result correct");
     for (auto &e : m.errors) {
-      std::string needle = e.type == ParseError::FILE_NOT_FOUND ? "file '" + e.request + "' not found" : e.type == ParseError::MAIN_FILE_NOT_FOUND ? "main file '" + e.request + "' not found"
-                           : e.type == ParseError::RECURSIVE_INCLUDE ? "included recursively" : "expected filename after include";
       bool found = false;
-      for (auto &msg : msgs) if (msg.find(needle) != std::string::npos) found = true;
-      if (!found) ctx.check(false, "C15", "compile_reports_include_errors", std::string("compile does not report ") + perr_name(e.type) + " (" + needle + ")");
+      for (auto &l : locs) if (l.file == e.file && l.line >= e.line_lo && l.line <= e.line_hi) found = true;
+      if (!found) ctx.check(false, "C15", "compile_reports_include_errors", std::string("compile() reports no error at ") + e.file + ":" + std::to_string(e.line_lo) + " where " + perr_name(e.type) + " is due");
     }
     // ---- liveness: the provider answers requests from the pristine store and retries
     std::map<std::string, std::string> st = store;
@@ -720,7 +720,19 @@ struct FsWorld {
       for (auto &kv : st) all.insert(kv.first);
       Model fm = model(all, main);
       if (req != fm.requests) ctx.check(false, "C15", "file_requests_exact", "after the provider loop the requests differ from the names that exist nowhere");
-      if (fm.requests.empty()) for (auto &msg : msgs) if (msg.find("not found") != std::string::npos) ctx.check(false, "C15", "no_error_when_all_present", "all files supplied, still: " + msg);
+      // the final store, scanned once more: no missing-file error may remain for a name that was supplied
+      {
+        WorkMonitor fmn; fmn.scan_limit = 2 * fm.tokens + 256;
+        HookGuard hg(&fmn);
+        set_phase(PH_SCAN);
+        try {
+          ScanResult fsr = Theo::scan(st, main);
+          for (auto &e : fsr.errors)
+            if ((e.t == ParseError::FILE_NOT_FOUND || e.t == ParseError::MAIN_FILE_NOT_FOUND) && st.count(e.file_request))
+              ctx.check(false, "C15", "no_error_when_all_present", "file '" + e.file_request + "' is supplied and still reported as missing");
+        } catch (SimAbort &) {}
+        set_phase(PH_HARNESS);
+      }
     }
     out.nontrivial = !m.errors.empty() || order.size() > 1;
   }
@@ -794,7 +806,6 @@ struct FsWorld {
       else if (s.returned) {
         if (m3.cnt[Theo::verif::MACRO_PASS] > 1024) ctx.check(false, "C11", "passes_within_budget", "compile made more than 1024 passes");
         if (divergent_e2e && s.ok) ctx.check(false, "C11", "unfinished_never_correct", "a divergent macro set compiled as a correct program");
-        if (divergent_e2e && !s.reached_max_passes) ctx.check(false, "C11", "unfinished_expansion_reported", "compile() of a divergent macro set does not report the too-many-substitutions error");
         if (divergent_e2e) ctx.stats.inc("probe_divergent_through_standard_macros");
         if (m3.cnt[Theo::verif::MACRO_PASS] >= 1024 && s.ok) {
           // exhausted budget and accepted: only fine if the expansion was complete
